@@ -210,12 +210,12 @@ def C02(ctx):
     ctx.rule = ("case = a source stream (3 of 4: real encoder; 1 of 4: model-made with features the encoder never emits) whose headers are mutated (bit flips, byte sets, truncation, "
                 "extension, splices, zero/ff runs, random bytes, targeted flips in the first 120 body bytes, swapped order) and whose audio packets are valid / truncated / "
                 "noisy / foreign, then 2-3 random call histories of 20-200 calls over the packet-decode typestate (headerin with any packet, idheader, packet_blocksize, "
-                "halfrate, synthesis_init incl. repeated after failure, synthesis / trackonly with wild b_o_s/e_o_s/granulepos/packetno, blockin, pcmout, read(any n), lapout, "
+                "halfrate (before set-up and under a live decoder), synthesis_init incl. repeated after failure, synthesis / trackonly with wild b_o_s/e_o_s/granulepos/packetno, blockin, pcmout, read(any n), lapout, "
                 "restart, clears in any state, repeated clears, re-init); plus (mode c02f) model set-ups with 1-2 header fields forced to boundary values (64 field sites x "
                 "{0,1,max,max-1,count,count+-1,sign bit,random}; codebook entries up to 2^24-1, dim 0/1/65535) re-packed bit-exactly; evaluation = one library call with its "
                 "return value checked against the documented codes; ASan/UBSan/LSan, the CPU budget and a 64 MiB stack judge the sanitized runs; the same workloads are repeated on the uninstrumented build under the default 8 MiB stack; bucket = "
                 "(source, mutated header, mutation kind, audio mode) | field class")
-    ctx.assumptions = TRUST_COMMON + ["blockin is called only directly after a successful synthesis/trackonly on that block; halfrate only while no decoder is live; lapout only in the "
+    ctx.assumptions = TRUST_COMMON + ["blockin is called only directly after a successful synthesis/trackonly on that block; lapout only in the "
                                       "states vorbisfile calls it in (a real block since restart) - other orders are outside the documented protocol",
                                       "allocation failure is not injected (the library checks no malloc result and no property asks it to)"]
     ctx.run("san", "pktmon", "c02", _n(ctx.tier, 3200, 120000), extra_src=SPEC, stack_mb=64)
